@@ -137,6 +137,7 @@ SimTask *sim_cur_task(void);
 uint64_t sim_now_us(void);
 void sim_sleep_us(uint64_t us);                        /* for harness tasks */
 void sim_yield_point(void);
+void sim_block_forever(void);                          /* the calling task never runs again unless its process is killed */
 SimProc *sim_find_pid(int pid);
 int sim_nprocs(void); SimProc *sim_proc_at(int i);
 void sim_kill_proc(SimProc *p, int sig);               /* harness-initiated kill */
